@@ -181,6 +181,18 @@ def apply_inner(reply, ops):
             label["why"] = "length-past-parent"
             label["tampered"] = node.name
             continue
+        if kind == "int_pad":
+            # non-minimal INTEGER: k redundant leading octets (00 for >= 0, ff for < 0); same value
+            named = [n for _, n in nodes if n.name == op["name"] and n.children is None and n.tag == 0x02 and n.content]
+            if not named:
+                continue
+            n = named[0]
+            fill = b"\xff" if n.content[0] & 0x80 else b"\x00"
+            n.content = fill * op["k"] + n.content
+            label["wf"] = None
+            label["why"] = "int-padded"
+            label["tampered"] = op["name"]
+            continue
         if kind == "insert_after":
             named = [(p_, n) for p_, n in nodes if n.name == op["name"] and p_]
             if not named:
